@@ -111,6 +111,9 @@ def add_stats(rng, prog, kinds=("counter", "tally", "wtally", "persistent"), wat
     specs = []
     for k, kind in enumerate(rng.sample(list(kinds), rng.randint(1, len(kinds)))):
         specs.append({"key": f"{kind}{k}", "kind": kind, "via": rng.choice(["register", "event"]), "watch": watch})
+    for sp in specs:
+        if sp["via"] == "event" and rng.random() < 0.4:
+            sp["two_types"] = True
     if plain and rng.random() < 0.4:
         specs.append({"key": "plain%d" % len(specs), "kind": rng.choice(["plaincounter", "plaintally"]), "via": "register", "watch": False})
     prog["stats"] = specs
